@@ -1961,6 +1961,19 @@ def rule_ndjson_header(out, tier):
             for ci, oi in ((0, 1), (1, 0)):
                 if "kNDJsonFormatVersionNumber" in refs[ci] and "kNDJsonFormatVersionNumber" not in refs[oi]:
                     other = operands[oi]
+                    # an explaining local (`auto& v = header["version"]; if (v != k)`): what it was initialised with
+                    for _ in range(3):
+                        core_ = other
+                        while core_.get("kind") in ("ImplicitCastExpr", "ParenExpr", "ExprWithCleanups", "MaterializeTemporaryExpr", "CXXBindTemporaryExpr") and core_.get("inner"):
+                            core_ = [c for c in core_["inner"] if isinstance(c, dict)][-1]
+                        if core_.get("kind") != "DeclRefExpr":
+                            break
+                        nm = (core_.get("referencedDecl") or {}).get("name")
+                        decls = [y for y in walk(body_of(rh)) if y.get("kind") == "VarDecl" and y.get("name") == nm]
+                        inits = [c for c in (decls[0].get("inner") or []) if isinstance(c, dict)] if len(decls) == 1 else []
+                        if not inits:
+                            break
+                        other = inits[-1]
                     strs = [y.get("value", "") for y in walk(other) if y.get("kind") == "StringLiteral"]
                     calls = [(y.get("name") or (y.get("referencedDecl") or {}).get("name") or "") for y in walk(other)
                              if y.get("kind") in ("MemberExpr", "DeclRefExpr")]
